@@ -40,7 +40,8 @@ type CheckCtx struct {
 	Workers int
 	start   time.Time
 
-	drv *Driver
+	drv  *Driver
+	pool chan *Driver
 
 	Models      []ModelRun
 	Validated   int            // scenarios / traces validated against the implementation
@@ -79,6 +80,24 @@ func (c *CheckCtx) driver() (*Driver, error) {
 	}
 	c.drv = d
 	return d, nil
+}
+
+// buildPool compiles n private copies of the driver (default-location scenarios: the snapshot
+// location is derived from the compiled-in source path, so concurrent scenarios need own copies).
+func (c *CheckCtx) buildPool(n int) error {
+	c.pool = make(chan *Driver, n)
+	ds := make([]*Driver, n)
+	if err := parallelDo(n, n, func(i int) error {
+		d, err := buildDriver(c.Sc, fmt.Sprintf("prog_w%d", i))
+		ds[i] = d
+		return err
+	}); err != nil {
+		return err
+	}
+	for _, d := range ds {
+		c.pool <- d
+	}
+	return nil
 }
 
 func (c *CheckCtx) addStats(m map[string]int) {
@@ -272,7 +291,19 @@ func (c *CheckCtx) runSeq(scs []*Scenario) error {
 		return err
 	}
 	t0 := time.Now()
-	runs, err := runScenarios(c.Sc, d, scs, c.Workers)
+	var pools []chan *Driver
+	for _, s := range scs {
+		if s.DefaultLoc {
+			if c.pool == nil {
+				if err := c.buildPool(c.Workers); err != nil {
+					return err
+				}
+			}
+			pools = []chan *Driver{c.pool}
+			break
+		}
+	}
+	runs, err := runScenarios(c.Sc, d, scs, c.Workers, pools...)
 	if err != nil {
 		return err
 	}
